@@ -38,6 +38,18 @@ func main() {
 		debugGlue(os.Args[2:])
 		return
 	}
+	if id == "stream" && len(os.Args) > 2 {
+		debugStream(os.Args[2:])
+		return
+	}
+	if id == "streamrules" {
+		debugStreamRules(os.Args[2:])
+		return
+	}
+	if id == "gluerules" {
+		debugGlueRules(os.Args[2:])
+		return
+	}
 	if id == "protospec" {
 		debugProtoSpec(os.Args[2:])
 		return
